@@ -185,7 +185,7 @@ func (e *evEngine) produce(es events.EventSystem, n int) {
 	for i := 0; i < n; i++ {
 		no := e.added
 		e.added++
-		es.AddEvent(&si.EventRecord{Type: si.EventRecord_APP, ObjectID: "obj", Message: strconv.Itoa(no), TimestampNano: int64(no)})
+		es.AddEvent(&si.EventRecord{Type: si.EventRecord_APP, ObjectID: "obj", Message: strconv.Itoa(no), TimestampNano: time.Now().UnixNano()}) // simulated clock: events of one instant share a timestamp
 	}
 }
 
